@@ -160,7 +160,9 @@ OWN = {
     "C10": {"with_parameters": "*", "to_parametric": "*"},
     "C11": {"pubo": "*", "qubo": "*"},
     "C12": {"log_encode": "*"},
-    "C13": {"slack_convert": "*", "slack_add": "*"},
+    # C13 states the conversion to an equality RELATIONALLY (same feasible x); that the new function is literally f + s/a
+    # (`function_kept`) is how the SDK does it, not what the property demands (benign/B-C13: a*f + s = 0 is as good)
+    "C13": {"slack_convert": {"except": ["function_kept"]}, "slack_add": "*"},
     # the evaluations interleaved with the histories decide C14's "values and feasibility are invariant, relaxed
     # feasibility depends on the active constraints only, the reason is recorded"
     "C14": {"relax": "*", "restore": "*", "evaluate": ["constraints_bag", "feasible", "feasible_relaxed", "reject_iff", "objective"]},
